@@ -102,3 +102,129 @@ Example C06_nonvacuous :
   | _ => False
   end.
 Proof. vm_compute. split; reflexivity. Qed.
+
+(** ==================================================================================================
+    The same property for the STAKING farm (farm-staking), on the position-level model Model/StakingPos.v:
+    positions with attributes {reward_per_share, compounded_reward, current_farm_amount, original_owner}, who
+    holds how much of which nonce, per-user totals; accrual (APR bound, capacity), reward payment, unbond
+    tokens and admin endpoints are those of Model/Staking.v; the boosted payout [b] is an input bounded by
+    the boosted pools.  [preach dsc apr minub ops]: the state after ANY list of operations from deployment.
+    [pvalid_op]: account ids in range.  [sep_op]: additionally the whitelisted proxy keeps its positions to
+    itself and users do not call the proxy endpoints (needed only where the VIRTUAL principal is compared
+    with the supply).  From here on the names settle, pay, utot, ... are those of the staking models. *)
+From MX Require Import Model.Staking Model.StakingPos Proofs.StakingProofs Proofs.StakingPosProofs.
+
+(** the documented formula is the floor (and zero when the entry index is not below the current one) *)
+Theorem C06_staking_base_formula : forall R d e x, 0 < d ->
+  (e < R -> is_floor_s (base_formula R d e x) (x * (R - e)) d) /\ (R <= e -> base_formula R d e x = 0).
+Proof. exact base_formula_floor. Qed.
+Print Assumptions C06_staking_base_formula.
+
+(** S-C06a/b claimRewards (newv = None) and claimRewardsWithNewValue: pays exactly
+    floor(x * (rps_settled - rps_entry) / DSC) + b, re-mints the position at the settled index with the floor share
+    of the compounded reward; nothing else changes in the ledger *)
+Theorem C06_staking_a_claim : forall sp blk ep c u n0 x0 newv b sp' o,
+  ep_claim sp blk ep c u (n0, x0) newv b = Ok (sp', o) -> Inv sp -> valid_id c ->
+  exists s2 s3 a base,
+    settle (p_s sp) blk = Ok s2 /\ find_sattrs (p_attrs sp) n0 = Some a /\ 0 < x0 <= held sp n0 c /\
+    base = base_formula (s_rps s2) (s_dsc (p_s sp)) (sa_rps a) x0 /\
+    pay s2 (base + b) b = Ok s3 /\
+    let n := s_next (p_s sp) in
+    let amt := match newv with Some v => v | None => x0 end in
+    let m := mkSA (s_rps s2) (comp_part a x0) amt u in
+    o = [n; amt; base + b] /\
+    p_attrs sp' = p_attrs sp ++ [(n, m)] /\ find_sattrs (p_attrs sp') n = Some m /\
+    p_held sp' = aset (aset (p_held sp) (hkey n0 c) (held sp n0 c - x0)) (hkey n c) amt /\
+    p_s sp' = bump (match newv with
+                    | None => s3
+                    | Some v => with_supply s3 (s_supply s3 - x0 + v) (s_virt s3 + v - x0)
+                    end) /\
+    s_rps (p_s sp') = s_rps s2.
+Proof. exact ep_claim_shape. Qed.
+Print Assumptions C06_staking_a_claim.
+
+(** S-C06a unstakeFarm / unstakeFarmThroughProxy: burns the part, pays floor(...) + b, supply decreases by the part,
+    an unbond token {current epoch + min unbond epochs} for the principal (or for the tokens sent along) is minted *)
+Theorem C06_staking_a_unstake : forall sp blk ep c u n0 x0 t b sp' o,
+  ep_unstake sp blk ep c u (n0, x0) t b = Ok (sp', o) -> Inv sp -> valid_id c ->
+  exists s2 s3 a base,
+    settle (p_s sp) blk = Ok s2 /\ find_sattrs (p_attrs sp) n0 = Some a /\ 0 < x0 <= held sp n0 c /\
+    base = base_formula (s_rps s2) (s_dsc (p_s sp)) (sa_rps a) x0 /\
+    pay s2 (base + b) b = Ok s3 /\
+    let n := s_next (p_s sp) in
+    let ubamt := match t with Some v => v | None => x0 end in
+    o = [n; ubamt; base + b] /\
+    p_attrs sp' = p_attrs sp /\
+    p_held sp' = aset (p_held sp) (hkey n0 c) (held sp n0 c - x0) /\
+    s_supply (p_s sp') = s_supply (p_s sp) - x0 /\
+    s_virt (p_s sp') = (match t with Some _ => s_virt (p_s sp) - x0 | None => s_virt (p_s sp) end) /\
+    find_z (s_ub (p_s sp')) n = Some (ep + s_minub (p_s sp)) /\
+    ubheld sp' n c = ubheld sp n c + ubamt /\
+    s_rps (p_s sp') = s_rps s2.
+Proof. exact ep_unstake_shape. Qed.
+Print Assumptions C06_staking_a_unstake.
+
+(** S-C06a/c compoundRewards: the reward floor(...) + b is not paid out but joins the principal and the compounded
+    part of the new position (merged with the additional payments by the C07 rules) *)
+Theorem C06_staking_a_compound : forall sp blk ep c n0 x0 adds b sp' o,
+  ep_compound sp blk ep c (n0, x0) adds b = Ok (sp', o) -> Inv sp -> valid_id c ->
+  exists sp1 s2 s3 a base m,
+    pay_all sp c ((n0, x0) :: adds) = Ok sp1 /\ settle (p_s sp) blk = Ok s2 /\
+    find_sattrs (p_attrs sp) n0 = Some a /\ 0 < x0 /\
+    base = base_formula (s_rps s2) (s_dsc (p_s sp)) (sa_rps a) x0 /\ 0 <= base /\
+    pay s2 (base + b) b = Ok s3 /\
+    let r := base + b in
+    merge_payments sp (mkSA (s_rps s2) (comp_part a x0 + r) (x0 + r) c) adds = Ok m /\
+    let n := s_next (p_s sp) in
+    o = [n; sa_amt m] /\
+    p_attrs sp' = p_attrs sp ++ [(n, m)] /\ find_sattrs (p_attrs sp') n = Some m /\
+    p_held sp' = aset (p_held sp1) (hkey n c) (sa_amt m) /\
+    s_supply (p_s sp') = s_supply (p_s sp) + r /\ s_virt (p_s sp') = s_virt (p_s sp) /\
+    s_bal (p_s sp') = s_bal (p_s sp) /\ s_reserve (p_s sp') = s_reserve s2 - r /\
+    s_rps (p_s sp') = s_rps s2.
+Proof. exact ep_compound_shape. Qed.
+Print Assumptions C06_staking_a_compound.
+
+(** S-C06c: compounding one position: reward r enters principal and compounded part, supply grows by r, the
+    reserve pays it, no token leaves the contract, and the new position starts at the settled index - its base
+    reward right now is 0: the compounded reward earns from this block on only *)
+Theorem C06_staking_c_compound : forall sp blk ep c n0 x0 b sp' o,
+  ep_compound sp blk ep c (n0, x0) [] b = Ok (sp', o) -> Inv sp -> valid_id c ->
+  exists s2 a base n m,
+    settle (p_s sp) blk = Ok s2 /\ find_sattrs (p_attrs sp) n0 = Some a /\
+    base = base_formula (s_rps s2) (s_dsc (p_s sp)) (sa_rps a) x0 /\ 0 <= base /\
+    let r := base + b in
+    o = [n; x0 + r] /\ find_sattrs (p_attrs sp') n = Some m /\
+    m = mkSA (s_rps (p_s sp')) (comp_part a x0 + r) (x0 + r) c /\
+    s_rps (p_s sp') = s_rps s2 /\
+    s_supply (p_s sp') = s_supply (p_s sp) + r /\ s_bal (p_s sp') = s_bal (p_s sp) /\
+    s_reserve (p_s sp') = s_reserve s2 - r /\
+    base_formula (s_rps (p_s sp')) (s_dsc (p_s sp')) (sa_rps m) (sa_amt m) = 0.
+Proof. exact sc06c_compound. Qed.
+Print Assumptions C06_staking_c_compound.
+
+(** S-C06b: stakeFarm / stakeFarmThroughProxy with nothing merged in: the new position records exactly the index
+    settled up to the current block (it earns nothing for earlier blocks); with positions merged in, its index is
+    the rounded-up weighted average (SC07b) of that index and theirs *)
+Theorem C06_staking_b_stake_index : forall (virtual : bool) sp blk ep c u amt b sp' o,
+  ep_stake virtual sp blk ep c u amt [] b = Ok (sp', o) -> Inv sp -> valid_id c ->
+  exists n, o = [n; amt; b] /\ find_sattrs (p_attrs sp') n = Some (mkSA (s_rps (p_s sp')) 0 amt u) /\
+            s_rps (p_s sp) <= s_rps (p_s sp') /\ s_supply (p_s sp') = s_supply (p_s sp) + amt.
+Proof. exact sc06b_stake_index. Qed.
+Print Assumptions C06_staking_b_stake_index.
+
+Theorem C06_staking_b_stake : forall virtual sp blk ep c u amt adds b sp' o,
+  ep_stake virtual sp blk ep c u amt adds b = Ok (sp', o) -> Inv sp -> valid_id c ->
+  exists sp1 s2 s5 m,
+    pay_all sp c adds = Ok sp1 /\ pay (p_s sp) b b = Ok s2 /\ settle s2 blk = Ok s5 /\ 0 < amt /\
+    merge_payments sp (mkSA (s_rps s5) 0 amt u) adds = Ok m /\
+    let n := s_next (p_s sp) in
+    o = [n; sa_amt m; b] /\
+    p_attrs sp' = p_attrs sp ++ [(n, m)] /\ find_sattrs (p_attrs sp') n = Some m /\
+    p_held sp' = aset (p_held sp1) (hkey n c) (sa_amt m) /\
+    s_supply (p_s sp') = s_supply (p_s sp) + amt /\
+    s_virt (p_s sp') = s_virt (p_s sp) + (if virtual then amt else 0) /\
+    s_bal (p_s sp') = s_bal (p_s sp) - b + (if virtual then 0 else amt) /\
+    s_rps (p_s sp') = s_rps s5.
+Proof. exact ep_stake_shape. Qed.
+Print Assumptions C06_staking_b_stake.
